@@ -266,6 +266,23 @@ Section Msg.
     (10 * length (always_types (tm_known M)))%nat.
 End Msg.
 
+(* boolean equality of layouts (comparison of generated and hand-written ones) *)
+Definition fkind_eqb (a b : fkind) : bool :=
+  match a, b with
+  | FU x, FU y | FBytes x, FBytes y | FArr16 x, FArr16 y => Nat.eqb x y
+  | FVar16Max x, FVar16Max y => x =? y
+  | FPoint, FPoint | FVar16, FVar16 | FBool, FBool | FFeat, FFeat
+  | FRest, FRest | FTlvRest, FTlvRest => true
+  | _, _ => false
+  end.
+
+Fixpoint layout_eqb (a b : layout) : bool :=
+  match a, b with
+  | [], [] => true
+  | x :: a', y :: b' => fkind_eqb x y && layout_eqb a' b'
+  | _, _ => false
+  end.
+
 (* ---- message table and framing ---- *)
 Definition tmsg_table := list (N * tlvmsg).
 
